@@ -192,6 +192,9 @@ func (d *dialA) replyGuards(rule, ruleAdopt string) {
 				okB, whyB = false, "the captured body is not bounded by 1024 bytes"
 			}
 		}
+		if lo, has := x.Lower(x.Len(buf)); !has || lo < 1024 {
+			okB, whyB = false, "the buffer the failed reply's body is captured into ("+buf.String()+") is not known to hold 1024 bytes: its size depends on run-time state (e.g. what happens to be buffered), so a body of up to 1024 bytes is truncated"
+		}
 		if !replaced {
 			okB, whyB = false, "resp.Body is not replaced by the captured bytes"
 		}
